@@ -69,3 +69,5 @@ open CalmVerif.Props.C07
 #check @binding_preserved_simple_partial
 #print axioms ok_program_facts
 #check @ok_program_facts
+#print axioms aligned_of_walk_facts
+#check @aligned_of_walk_facts
